@@ -175,13 +175,13 @@ def main():
             "add_only": True,
         },
         "engines": [
-            {"name": "history", "path": "harness/src/props/hist.rs", "serves_properties": ["C01", "C02", "C03", "C04", "C26", "C27", "C28"],
+            {"name": "history", "path": "harness/src/props/hist.rs, c31.rs", "serves_properties": ["C01", "C02", "C03", "C04", "C26", "C27", "C28", "C31"],
              "kind_free_text": "op histories through the real UserModel with snapshot, structure and selection monitors"},
             {"name": "codec", "path": "harness/src/props/c21.rs, c22.rs, c23.rs, c34.rs, c11.rs, c18.rs, c19.rs, c20.rs", "serves_properties": ["C11", "C18", "C19", "C20", "C21", "C22", "C23", "C34"],
              "kind_free_text": "text/number/date/name codecs driven exhaustively or bounded-exhaustively against independent reference codecs; crash capture"},
-            {"name": "formula", "path": "harness/src/props/c05.rs ... c10.rs, c16.rs, c17.rs, c32.rs", "serves_properties": ["C05", "C06", "C07", "C08", "C09", "C10", "C16", "C17", "C32"],
+            {"name": "formula", "path": "harness/src/refeval.rs, harness/src/props/eval.rs (C05, C06), c07.rs, c08.rs, c09.rs, c10.rs, c17.rs, c32.rs", "serves_properties": ["C05", "C06", "C07", "C08", "C09", "C10", "C17", "C32"],
              "kind_free_text": "formula programs through the real parser/evaluator with a reference evaluator and metamorphic relations"},
-            {"name": "structure", "path": "harness/src/props/c12.rs ... c15.rs, c29.rs, c30.rs, c31.rs, c33.rs", "serves_properties": ["C12", "C13", "C14", "C15", "C29", "C30", "C31", "C33"],
+            {"name": "structure", "path": "harness/src/props/structural.rs (C12-C15), c29.rs, c30.rs", "serves_properties": ["C12", "C13", "C14", "C15", "C29", "C30"],
              "kind_free_text": "structural and attribute edits against reference shift / attribute-table models"},
             {"name": "xlsx", "path": "harness/src/props/c24.rs, c25.rs", "serves_properties": ["C24", "C25"],
              "kind_free_text": "xlsx export/import round trips and package mutators with crash capture"},
